@@ -1079,6 +1079,9 @@ class Interp(object):
         raise Unsupported("attribute %s of %r" % (attr, obj))
 
     def array_attr(self, obj, attr, st):
+        if attr == 'data' and (isinstance(obj, Quantity) or is_array(obj)):
+            # astropy Column.data (a table column is held as its array / quantity): the bare values
+            return obj.value if isinstance(obj, Quantity) else obj
         if isinstance(obj, Quantity):
             if attr == 'value':
                 return obj.value
